@@ -104,6 +104,88 @@ def c11(tier):
     p1_job(run, "laguerre", "MC_Def", {"prop": "C11", "cfgs": lag, "alphabet": [-2, 0, 1, 3], "unit": 1, "maxlen": 6 if tier == "quick" else 8})
     return run.finish(RULE_DEF)
 
+@check("C14")
+def c14(tier):
+    run = Run("C14", tier, "model_checking")
+    K = [E, {"k": "Constant", "v": [3, 2]}, sma(2), {"k": "Roc", "n": 1}]
+    cf = [{"k": b, "c": [x, y]} for b in ("Add", "Subtract", "Multiply", "Divide") for x in K for y in K]
+    cf += [{"k": g, "v": v, "c": [x]} for g in ("GTE", "LTE") for v in ([1, 2], [0, 1], [-3, 4]) for x in K]
+    cf += [{"k": "Tanh", "c": [x]} for x in K] + [E, {"k": "Constant", "v": [3, 2]}, {"k": "Constant", "v": [-1, 4]}]
+    L = 4 if tier == "quick" else 6
+    p1_job(run, "pointwise", "MC_Def", {"prop": "C14", "cfgs": cf, "alphabet": [-3, 0, 1, 4], "unit": 2, "maxlen": L, "bitexact": True})
+    Kp = [E, {"k": "LnReturn"}, sma(2), {"k": "Constant", "v": [5, 4]}]
+    cfp = [{"k": b, "c": [x, y]} for b in ("Add", "Subtract", "Multiply", "Divide") for x in Kp for y in Kp if "LnReturn" in (x["k"], y["k"])]
+    cfp += [{"k": g, "v": [1, 4], "c": [{"k": "LnReturn"}]} for g in ("GTE", "LTE")] + [{"k": "Tanh", "c": [{"k": "LnReturn"}]}]
+    p1_job(run, "pointwise-pos", "MC_Def", {"prop": "C14", "cfgs": cfp, "alphabet": [1, 2, 3, 8], "unit": 2, "maxlen": L, "bitexact": True})
+    return run.finish(RULE_DEF)
+
+def c04_cfgs(n):
+    return [sma(n), ema(n), {"k": "Alma", "n": n}, {"k": "Ema", "n": n, "alpha": [1, 1]}, {"k": "Ema", "n": n, "alpha": [1, 2]},
+            {"k": "Ema", "n": n, "alpha": [3, 1]}, {"k": "Alma", "n": n, "sigma": [3, 1], "offset": [1, 2]},
+            {"k": "Alma", "n": n, "sigma": [10, 1], "offset": [9, 10]}]
+
+@check("C04")
+def c04(tier):
+    run = Run("C04", tier, "model_checking")
+    plan = [(1, 4), (2, 5), (3, 6), (4, 7)] if tier == "quick" else [(1, 5), (2, 7), (3, 8), (4, 9), (5, 10), (6, 10)]
+    for n, L in plan:
+        alpha = [-2, 0, 2] if n % 2 else [-2, 0, 1, 3]
+        if L >= 7:
+            alpha = [-2, 0, 2]
+        sc = {"prop": "C04", "cfgs": c04_cfgs(n), "alphabet": alpha, "unit": 1, "maxlen": L}
+        # recurrence (Ema, every alpha) and kernel (Alma) clauses: the definition
+        p1_job(run, "avg-def-n%d" % n, "MC_Def", sc)
+        # interval / constant / monotone for the averages the statement names (default alpha)
+        sc2 = dict(sc); sc2["cfgs"] = [sma(n), ema(n), {"k": "Alma", "n": n}, {"k": "Alma", "n": n, "sigma": [3, 1], "offset": [1, 2]}]
+        p1_job(run, "avg-rel-n%d" % n, "MC_C04", sc2, nontrivial_keys=("interval",))
+        # affine clause: the same history run through x -> a*x+b
+        for a, b in (([2, 1], [5, 1]), ([1, 2], [-1, 1]), ([3, 1], [0, 1])):
+            rel_job(run, "avg-affine-n%d-a%d_%d" % (n, a[0], a[1]), "C04", sc2["cfgs"], alpha, 1, min(L, 6), a, b, "affine")
+    return run.finish(RULE_DEF + "; for the interval/constant/monotone clauses: states in which the average reports a value")
+
+def rel_job(run, name, prop, cf, alphabet, unit, L, a, b, mode, bitexact=False, cfgs2=None):
+    """two real runs per history: x and a*x+b (a = [num,den], b = [num,den]); decided by MC_Rel"""
+    an, ad = a; bn, bd = b
+    unit2 = ad * bd * unit
+    alpha2 = [an * bd * x + bn * ad * unit for x in alphabet]
+    sc = {"prop": prop, "cfgs": cf, "alphabet": alphabet, "unit": unit, "maxlen": L, "a": a, "b": b, "mode": mode}
+    if bitexact:
+        sc["bitexact"] = True
+    if cfgs2:
+        sc["cfgs2"] = cfgs2
+    sc2 = {"cfgs": cfgs2 or cf, "alphabet": alpha2, "unit": unit2, "maxlen": L}
+    return p1_job(run, name, "MC_Rel", sc, scope2=sc2,
+                  nontrivial_keys=("rel.inv", "rel.scale", "rel.affine", "rel.neg", "rel.rsi"))
+
+def c12_cfgs(n):
+    v = cfgs(["HLNormalizer", "Vsct", "CorrelationTrendIndicator", "NoiseEliminationTechnology", "Rsi", "MyRSI", "LaguerreRSI", "Vst", "Roc",
+              "CenterOfGravity", "BinaryEntropy", "Min", "Max", "Sma", "Ema", "Alma", "Cumulative", "WelfordOnline", "SuperSmoother",
+              "CyberCycle"], [n])
+    v += [{"k": "EhlersFisherTransform", "n": n, "c": [E, ema(2)]}, {"k": "RoofingFilter", "n": n, "m": 2}, {"k": "LaguerreFilter", "g": [1, 2]}]
+    if n >= 3:
+        v += cfgs(["TrendFlex", "ReFlex"], [n])
+    return v
+def swap_minmax(cf):
+    return [dict(c, k={"Min": "Max", "Max": "Min"}.get(c["k"], c["k"])) for c in cf]
+
+@check("C12")
+def c12(tier):
+    run = Run("C12", tier, "model_checking")
+    plan = [(1, 4), (2, 5), (3, 6), (4, 7)] if tier == "quick" else [(1, 5), (2, 6), (3, 7), (4, 8), (5, 9), (6, 9)]
+    for n, L in plan:
+        A = [-2, 0, 1, 3] if L <= 5 else [-2, 0, 3]
+        cf = c12_cfgs(n)
+        rel_job(run, "scale2-n%d" % n, "C12", cf, A, 1, L, [2, 1], [0, 1], "scale", bitexact=True)
+        rel_job(run, "scale3h-n%d" % n, "C12", cf, A, 1, L, [3, 2], [0, 1], "scale")
+        rel_job(run, "affine-n%d" % n, "C12", cf, A, 1, L, [3, 1], [5, 2], "affine")
+        rel_job(run, "neg-n%d" % n, "C12", cf, A, 1, L, [-1, 1], [0, 1], "neg", cfgs2=swap_minmax(cf))
+    # positive-domain views
+    pos = [{"k": "LnReturn"}, {"k": "Drawdown"}]
+    rel_job(run, "pos-scale2", "C12", pos, [1, 2, 4, 7], 1, 6 if tier == "quick" else 8, [2, 1], [0, 1], "scale", bitexact=True)
+    rel_job(run, "pos-scale3", "C12", pos, [1, 2, 4, 7], 1, 6 if tier == "quick" else 8, [3, 1], [0, 1], "scale")
+    return run.finish("every input sequence over the alphabet up to maxlen, run twice through the real view (x and a*x+b); "
+                      "non-trivial = states in which the statement fixes a relation, the window is not flat and both runs report a value")
+
 # ------------------------------------------------------------------------------------------------
 def setup():
     sfv.ensure_java()
@@ -136,7 +218,14 @@ def replay(path):
         run = Run("replay", "quick", "model_checking")
         run.prop = obj["property"]
         run.known = []
-        res = p1_job(run, "replay", obj["module"], scope, profile=obj.get("profile", "dev"), extra_env=obj.get("env") or None)
+        scope2 = None
+        if "alphabet2" in obj:
+            scope["alphabet"] = obj["alphabet"]
+            scope2 = dict(obj.get("scope2_rest", {}))
+            scope2.update({"cfgs": [obj["cfg2"]], "alphabet": obj["alphabet2"], "maxlen": len(obj["inputs"])})
+            if "cfgs2" in scope:
+                scope["cfgs2"] = [obj["cfg2"]]
+        res = p1_job(run, "replay", obj["module"], scope, profile=obj.get("profile", "dev"), extra_env=obj.get("env") or None, scope2=scope2)
         hit = [v for v in run.violations if v["detail"]["inputs"] == obj["inputs"] and v["clause"] == obj["clause"]]
         # show what the real code answers along this history
         inp = os.path.join(wd, "in.ndjson"); outp = os.path.join(wd, "out.ndjson")
